@@ -5,7 +5,7 @@ import vlib, lclib
 def run(ctx):
     quick = ctx.tier == "quick"
     lclib.model_check(ctx, quick)
-    lclib.run(ctx, lclib.C07_WHATS, 180 if quick else 3600, 30 if quick else 45)
+    lclib.run(ctx, lclib.C07_WHATS, 420 if quick else 6300, 36 if quick else 50)
     ctx.assumptions += ["the total order of committed writes is the one of the recording proxy (it serialises writes around the store call)",
                         "cleanup controllers are not driven in this round (see DESIGN.md)"]
 
